@@ -30,14 +30,17 @@
       for ε = 1 and the same family runs as long as one likes (each step removes only a 1/1001 of
       the bracket): no bound in terms of (L, H, ε, tol) alone exists for small ε. With the
       solver's ε = 1 the very same tape converges in 16 iterations (`overshoot_run_eps_one`).
-    * bracket with 0 inside (`creeping_zero_inside`): f(x) = x/(2T + x)/8 on [−T, 1], T = 4, ε = 1,
-      tol = 1 — smooth and increasing — makes the secant step exactly `−b/2`; it is accepted for ever
-      (`|dx| < |c − d|/2 = b`, `|c − d| = 2b = δ`), `b` creeps towards 0 as `2^{-j}` and `a = −T`
-      never moves: width > T ≥ tol. 200 iterations checked; in exact arithmetic it never stops.
-      (In binary64 `b` underflows after ≈ 1075 iterations.)
+    * bracket with 0 inside (`creeping_never_terminates`, proved for every amount of fuel in every
+      ordered field; hence `terminatesAlways_false : ¬ C19.TerminatesAlways α`): f(x) = x/(8 + x)/8 on
+      [−4, 1], ε = 1, tol = 1 — smooth and increasing — makes the secant step exactly `−b/2`; it is
+      accepted for ever (`|dx| < |c − d|/2 = b`, `|c − d| = 2b = δ`), `b` creeps towards 0 as `2^{-j}` and
+      `a = −4` never moves: width > 4 ≥ tol. (`creeping_zero_inside`: the first 200 iterations by
+      kernel computation over ℚ. In binary64 `b` underflows to 0 after 1066 iterations and the loop
+      stops — observed on the real class.)
   Still open: brackets *touching* 0 from one side (`start = 0`: the first step of a noisy run).
 -/
-import EmuVerif.Proofs.BrentTerm
+import EmuVerif.Props.C19
+import EmuVerif.Proofs.BrentCreep
 import Mathlib.Algebra.Order.Archimedean.Basic
 
 set_option linter.unusedSectionVars false
@@ -176,11 +179,25 @@ theorem uniformBound_eps_quarter_false : ¬ UniformBound 10 1000 (1 / 4) 1 120 :
     rw [h1] at h2
     exact absurd h2 (by simp)
 
-/-- f(x) = x / (2T + x) / 8 with T = 4: smooth, increasing, root at 0 inside [−4, 1] -/
-def creepF (x : ℚ) : ℚ := x / (8 + x) / 8
+/-! ### Zero inside the bracket: the loop never ends (ε = 1, tolerance 1, smooth increasing f) -/
 
-/-- **Bracket with 0 inside, ε = 1, tol = 1: 200 iterations are not enough** (fuel exhausted);
-every step is an accepted secant step `dx = −b/2`. -/
+/-- **`find_root_brents` never returns** for `f(x) = x/(8+x)/8` (`Brent.creepF`: smooth, increasing,
+root at 0) on `[−4, 1]` with ε = 1 and tolerance 1, in any ordered field: every step is an accepted
+secant step `dx = −b/2` (`Brent.creep_step`), `b = 2^{-j}` creeps towards the root and `a = −4` stays. -/
+theorem creeping_never_terminates {s0 : St α}
+    (h : init (-4 : α) 1 (creepF (-4)) (creepF 1) 1 = some s0) (fuel : Nat) :
+    findRoot creepF 1 fuel s0 [] = none :=
+  creep_never fuel s0 [] (creep_init h)
+
+/-- **C19's unguarded termination claim `TerminatesAlways` is false** in every ordered field. -/
+theorem terminatesAlways_false : ¬ C19.TerminatesAlways α := by
+  intro hT
+  obtain ⟨s0, h⟩ := creep_init_some (α := α)
+  obtain ⟨fuel, r, hr⟩ := hT creepF (-4) 1 1 1 s0 one_pos one_pos h
+  rw [creeping_never_terminates h fuel] at hr
+  exact absurd hr (by simp)
+
+/-- the same run computed by the kernel over ℚ: 200 units of fuel are exhausted -/
 theorem creeping_zero_inside :
     (init (-4 : ℚ) 1 (creepF (-4)) (creepF 1) 1).map (fun s => (findRoot creepF 1 200 s []).isSome)
       = some false := by decide +kernel
